@@ -128,17 +128,30 @@ def _compiler_only(t):
     return False
 
 
-_FLOAT = re.compile(r"-?\d+\.\d*(?:e[+-]?\d+)?|-?\d+e[+-]?\d+|-?inf|nan|-?\d{8,}")
+_FLOAT = re.compile(r"-?\d+\.\d*(?:e[+-]?\d+)?|-?\d+e[+-]?\d+|-?inf|nan|-?\d{8,}|-?0(?![\d.])")
 
 
 def _norm_text(s):
+    """Text with every number replaced by a placeholder, plus the list of numbers."""
+    nums = []
+
     def f(m):
         try:
-            x = float(m.group(0))
-            return "0" if x == 0 else "%.6g" % x      # sign of zero is not part of the value
+            nums.append(float(m.group(0)))
         except ValueError:
-            return m.group(0)
-    return _FLOAT.sub(f, s)
+            nums.append(float("nan"))
+        return "#"
+    return _FLOAT.sub(f, s), nums
+
+
+def _same_text(a, b):
+    """The writer's texts read the same: same layout, numbers equal up to single-precision rounding
+    (the same tolerance as the value comparison; the sign of zero is not part of the value)."""
+    from vf.core.canon import _num_close
+    (ta, na), (tb, nb) = _norm_text(a), _norm_text(b)
+    if ta != tb or len(na) != len(nb):
+        return False
+    return all(_num_close(x, y, 2e-4, 2e-5) for x, y in zip(na, nb))
 
 
 def init_shard(tier, seed):
@@ -173,7 +186,7 @@ def _diff(tree, binds, off=False):
     d = same(sn[1], st[1], "f32")
     if d:
         return d, sn, st, tn, tt
-    if _norm_text(tn) != _norm_text(tt):
+    if not _same_text(tn, tt):
         return "display", sn, st, tn, tt
     return None, sn, st, tn, tt
 
